@@ -40,9 +40,17 @@ func verifAuthOptRoundTrip(authOpt *slayers.EndToEndOption, spi uint32, algo uin
 }
 
 // DRKey retrieval and derivation (daemon RPC, key cache): not under contract, arbitrary result or error.
+// The key handed out (cached or freshly retrieved) is the one for exactly the requested protocol, AS pair and local
+// host: only the key binds a packet authenticator to the host pair, so a cached key for another local host address
+// must never be reused. The daemon call itself (drkey.go FetchHostASKey) is assumed to return the key it was asked for.
 //@ func (*Fetcher).FetchHostASKey
+//@   noframe
+//@   nonnil fetcherMtrcs.Load
+//@   requires f != nil && f.haks != nil
+//@   ensures matches: result1 == nil ==> result0.ProtoId == meta.ProtoId && result0.SrcIA == meta.SrcIA && result0.DstIA == meta.DstIA && result0.SrcHost == meta.SrcHost
+//@ func FetchHostASKey
 //@   trusted
-//@   allocates
+//@   ensures result1 == nil ==> result0.ProtoId == meta.ProtoId && result0.SrcIA == meta.SrcIA && result0.DstIA == meta.DstIA && result0.SrcHost == meta.SrcHost
 //@ func (*Fetcher).FetchHostHostKey
 //@   trusted
 //@   allocates
